@@ -110,6 +110,8 @@ class C01(conncheck.ConnCheck):
     def jobs(self, tier, seed):
         jobs = [{'k': 'fix', 'cfg': {'name': 'fix/' + hs, 'server': SERVER_FIX, 'handshake': [hs], 'depth': None, 'max_dev': 0}}
                 for hs in ('hs-ok', 'hs-with-frame', 'hs-deflate')]
+        jobs.append({'k': 'fix', 'cfg': {'name': 'fix/tls', 'url': 'wss://example.com/x', 'server': SERVER_FIX, 'handshake': ['hs-ok', 'hs-deflate'],
+                                         'depth': None, 'max_dev': 0}})
         # (b1) single messages, everything
         for kind in ('text', 'binary'):
             for n in SIZES:
